@@ -307,6 +307,75 @@ def check(model, rep):
                 '(IndexError under NUMBA_BOUNDSCHECK / in the interpreter, neighbouring memory otherwise)' % (bad[0][1], bad[0][2], ', '.join(tabs))) if bad else 'driven by the joint vector',
                line=bad[0][0].lineno if bad else None)
     rep.floor('R17.3', 'kernels taking a screw table and a joint vector', n_driven, 7)
+    # ---------------------------------------------------------------- R17.5
+    # Index offsets handed in by the caller.  A kernel parameter that has no shape contract (an integer offset / count a caller passes) and is
+    # used inside a subscript makes the kernel's bounds depend on the call: R17.1 has no value for it.  Every call of such a kernel in the
+    # package is analysed with the argument's integer value substituted for the parameter (the default where the call omits it), under the
+    # kernel's own shape contract - the extents the callers hand in are tied to that contract by R17.1's callee check.
+    rep.rule('R17.5', 'kernels indexed through an un-contracted integer parameter are in bounds at every call: the kernel is re-analysed with the '
+                      'integer each call passes (or the default) substituted for the parameter')
+    import copy as _copy17
+    n_off = n_calls5 = 0
+    for fi in sorted(ks, key=lambda f: f.key):
+        contract = CONTRACTS.get(fi.name)
+        if contract is None:
+            continue
+        offs = []
+        for p_ in fi.params:
+            if p_ in contract:
+                continue
+            used = any(isinstance(sub, ast.Subscript) and any(isinstance(x_, ast.Name) and x_.id == p_ for x_ in ast.walk(sub.slice))
+                       for sub in ast.walk(fi.node))
+            if used:
+                offs.append(p_)
+        if not offs:
+            continue
+        n_off += 1
+        sites = []
+        for m_ in model.modules.values():
+            if m_.tree is None:
+                continue
+            for c_ in ast.walk(m_.tree):
+                if isinstance(c_, ast.Call) and ((isinstance(c_.func, ast.Name) and c_.func.id == fi.name) or
+                                                 (isinstance(c_.func, ast.Attribute) and c_.func.attr == fi.name)):
+                    sites.append((m_, c_))
+        for m_, c_ in sites:
+            vals = {}
+            okv = True
+            for p_ in offs:
+                k_ = fi.params.index(p_)
+                a_ = c_.args[k_] if k_ < len(c_.args) else next((kw.value for kw in c_.keywords if kw.arg == p_), fi.defaults.get(p_))
+                if isinstance(a_, ast.UnaryOp) and isinstance(a_.op, ast.USub) and isinstance(a_.operand, ast.Constant):
+                    a_ = ast.Constant(-a_.operand.value)
+                if isinstance(a_, ast.Constant) and isinstance(a_.value, int) and not isinstance(a_.value, bool):
+                    vals[p_] = a_.value
+                else:
+                    okv = False
+                    rep.unresolved_item('R17.5', '%s:%d' % (m_.relpath, c_.lineno), 'argument for %s.%s is not an integer constant: %s'
+                                        % (fi.name, p_, ast.unparse(a_)[:40] if a_ is not None else 'missing'))
+            if not okv:
+                continue
+            n_calls5 += 1
+            fn2 = _copy17.deepcopy(fi.node)
+            fn2.args.args = [x_ for x_ in fn2.args.args if x_.arg not in vals]
+            fn2.args.defaults = []
+
+            class _Sub(ast.NodeTransformer):
+                def visit_Name(self, n_):
+                    if n_.id in vals and isinstance(n_.ctx, ast.Load):
+                        return ast.copy_location(ast.Constant(vals[n_.id]), n_)
+                    return n_
+            fn2 = ast.fix_missing_locations(_Sub().visit(fn2))
+            b = Bounds(fn2, contract, RETURNS, callee_contracts=callee_contracts).run()
+            bad = [(s_.text, s_.msg) for s_ in b.sites if not s_.ok]
+            rep.ob('R17.5', m_.relpath, '%s(%s) at line %d' % (fi.name, ', '.join('%s=%d' % kv for kv in sorted(vals.items())), c_.lineno), not bad,
+                   ('the call %s passes %s: inside %s the access %s is out of bounds - %s (IndexError under NUMBA_BOUNDSCHECK / in the interpreter, '
+                    'neighbouring memory otherwise)' % (ast.unparse(c_)[:60], ', '.join('%s=%d' % kv for kv in sorted(vals.items())), fi.name, bad[0][0], bad[0][1])) if bad
+                   else 'in bounds for the passed integer', qualname=fi.name, line=c_.lineno)
+    rep.count('R17.5 kernels indexed through an un-contracted parameter', n_off)
+    rep.count('R17.5 call sites specialised', n_calls5)
+    rep.ob('R17.5', model.module(JIT_MODS[0]).relpath, 'kernels indexed through un-contracted integer parameters', True,
+           '%d kernels, %d call sites specialised' % (n_off, n_calls5), qualname='<module>', line=1, nontrivial=False)
     # ---------------------------------------------------------------- R17.4
     # An explicit signature switches off Numba's specialisation on the argument types: a float handed to a parameter declared int64 is
     # CAST (truncated toward zero) without an error, while the interpreted source computes with the float - compiled != interpreted.
